@@ -22,7 +22,7 @@ import (
 const c05Tol = 2e-6
 
 func init() {
-	min := map[string]int64{"reset_before_setrasterizer": 5000, "rectangle_changed_after_reset": 5000, "renderer_used_for_an_earlier_graphic": 5000, "lattice_mode": 5000, "lattice_operand_equals_pen_pixels": 5000, "paths": 10000, "ops": 100000, "draws": 10000, "smooth_reflected": 1000, "smooth_from_pen": 1000, "rel_move_after_close": 1000, "nonsquare_maps": 5000, "offset_rects": 5000}
+	min := map[string]int64{"reset_before_setrasterizer": 5000, "rectangle_changed_after_reset": 5000, "renderer_used_for_an_earlier_graphic": 5000, "lattice_mode": 5000, "empty_target_rectangles": 5000, "lattice_operand_equals_pen_pixels": 5000, "paths": 10000, "ops": 100000, "draws": 10000, "smooth_reflected": 1000, "smooth_from_pen": 1000, "rel_move_after_close": 1000, "nonsquare_maps": 5000, "offset_rects": 5000}
 	for _, a := range gen.NonArcVerbs {
 		for _, b := range gen.NonArcVerbs {
 			min["pair/"+a.String()+">"+b.String()] = 50
@@ -51,6 +51,17 @@ func init() {
 type c05Config struct {
 	vb   ivg.ViewBox
 	rect image.Rectangle
+	// given, when set, is the (empty) rectangle actually handed to SetRasterizer;
+	// rect is then the zero Rectangle the Renderer is documented to use instead
+	given *image.Rectangle
+}
+
+// target returns the rectangle to hand to SetRasterizer.
+func (cfg c05Config) target() image.Rectangle {
+	if cfg.given != nil {
+		return *cfg.given
+	}
+	return cfg.rect
 }
 
 func c05GenConfig(r *run.Rng) c05Config {
@@ -72,7 +83,7 @@ func c05GenConfig(r *run.Rng) c05Config {
 	if r.Chance(2, 3) {
 		rect = rect.Add(image.Pt(r.Range(-20, 300), r.Range(-20, 300)))
 	}
-	return c05Config{vb, rect}
+	return c05Config{vb: vb, rect: rect}
 }
 
 func c05Path(c *run.Ctx, idx uint64) {
@@ -94,6 +105,16 @@ func c05Path(c *run.Ctx, idx uint64) {
 		w, h := int(cfg.vb.MaxX-cfg.vb.MinX)*r.Pick(1, 2, 3, 4, 8), int(cfg.vb.MaxY-cfg.vb.MinY)*r.Pick(1, 2, 3, 4, 8)
 		cfg.rect = image.Rect(0, 0, w, h).Add(image.Pt(r.Pick(0, 0, 8, 16), r.Pick(0, 0, 8, 16)))
 		coord = func(r *run.Rng) float32 { return float32(r.Range(-40, 40)) }
+	}
+	if !lattice && r.Chance(1, 25) {
+		// an empty target (no width, no height, or neither) at some position: the
+		// graphic is scaled to nothing, whatever the rasterizer's own bounds are
+		g := image.Rect(0, 0, r.Pick(0, 0, 7), r.Pick(0, 9, 0)).Add(image.Pt(r.Range(-5, 30), r.Range(-5, 30)))
+		if g.Dx() > 0 && g.Dy() > 0 {
+			g.Max.X = g.Min.X
+		}
+		cfg.given, cfg.rect = &g, image.Rectangle{}
+		c.Count("empty_target_rectangles", 1)
 	}
 	sxL := float32(cfg.rect.Dx()) / (cfg.vb.MaxX - cfg.vb.MinX)
 	syL := float32(cfg.rect.Dy()) / (cfg.vb.MaxY - cfg.vb.MinY)
@@ -142,27 +163,31 @@ func c05Path(c *run.Ctx, idx uint64) {
 // c05Run feeds ops to a Renderer and judges every step.
 func c05Run(c *run.Ctx, cfg c05Config, ops []rec.Op) bool {
 	rz := &rec.Raster{}
+	if cfg.given != nil {
+		rz.Reset(37, 41) // the rasterizer was used for something else before: its own bounds are not empty
+		rz.ResetLog()
+	}
 	var z render.Renderer
 	// the map from viewBox to rectangle is established by SetRasterizer and
 	// Reset in either order, and again when the rectangle changes afterwards
 	switch (uint64(cfg.rect.Dx())*31 + uint64(len(ops))) % 5 {
 	case 4:
-		z.SetRasterizer(rz, cfg.rect)
+		z.SetRasterizer(rz, cfg.target())
 		earlierGraphic(&z, cfg.vb)
 		rz.ResetLog()
 		z.Reset(cfg.vb, ivg.DefaultPalette)
 		c.Count("renderer_used_for_an_earlier_graphic", 1)
 	case 0:
 		z.Reset(cfg.vb, ivg.DefaultPalette)
-		z.SetRasterizer(rz, cfg.rect)
+		z.SetRasterizer(rz, cfg.target())
 		c.Count("reset_before_setrasterizer", 1)
 	case 1:
 		z.SetRasterizer(rz, image.Rect(0, 0, cfg.rect.Dx()*2+3, cfg.rect.Dy()+5))
 		z.Reset(cfg.vb, ivg.DefaultPalette)
-		z.SetRasterizer(rz, cfg.rect)
+		z.SetRasterizer(rz, cfg.target())
 		c.Count("rectangle_changed_after_reset", 1)
 	default:
-		z.SetRasterizer(rz, cfg.rect)
+		z.SetRasterizer(rz, cfg.target())
 		z.Reset(cfg.vb, ivg.DefaultPalette)
 	}
 	g := &ref.Geom{VB: cfg.vb, DX: cfg.rect.Dx(), DY: cfg.rect.Dy()}
